@@ -15,6 +15,7 @@ This module derives from a text program
 and contains the seeded generator of random programs (within the documented contract of Future).
 """
 import json
+import os
 import random
 import sys
 
@@ -138,15 +139,43 @@ MC = {
 }
 
 
+INVARIANTS = ('TypeOK NoBad FuncOnce ReadyImpliesRan GetsAgree DeallocOnce RefsSane ThenAfterReady TsWaitImpliesReady '
+              'CountersSane AtEnd WhenAllReady WhenAnyReady CombFOnce')
+
+
+def threads_of(text):
+    """(drivers, workers, new threads) a model of this program needs"""
+    p = parse(text)
+    drivers = [n for n, _ in p]
+    nw, nnt = 0, 0
+    for _, ops in p:
+        for o in ops:
+            if o['op'] == 'new':
+                nw = max(nw, o.get('w', 0))
+            if o['op'] in ('mk', 'then') and o.get('s') == 3:
+                nnt += 1
+    return drivers, ['w%d' % i for i in range(nw)], ['nt%d' % i for i in range(nnt)]
+
+
 def write_mc(path):
+    d = os.path.dirname(path)
     with open(path, 'w') as f:
         f.write('------------------------------ MODULE MCFuture ------------------------------\n')
         f.write('(* Model-checking programs for Future.tla - GENERATED by spec/future/gen.py (python3 gen.py mc) *)\n')
         f.write('EXTENDS Future\n\n')
-        f.write('MCNTs == <<"nt0", "nt1", "nt2">>\nMCNoWorkers == {}\nMCWorkers1 == {"w0"}\nMCWorkers2 == {"w0", "w1"}\n\n')
         for k, v in MC.items():
-            f.write(tla_defs(k, v) + '\n')
+            dr, ws, nts = threads_of(v)
+            f.write(tla_defs(k, v))
+            f.write('Workers_%s == {%s}\nNTs_%s == <<%s>>\nThreads_%s == {%s}\n\n' % (
+                k, ', '.join('"%s"' % w for w in ws), k, ', '.join('"%s"' % n for n in nts), k,
+                ', '.join('"%s"' % n for n in dr + ws + nts)))
         f.write('=============================================================================\n')
+    for k, v in MC.items():
+        for fixed in ((False, True) if 'wany' in v else (False,)):
+            with open(os.path.join(d, 'MC_%s%s.cfg' % (k, '_fixed' if fixed else '')), 'w') as f:
+                f.write('CONSTANTS\n  Workers <- Workers_%s\n  NTs <- NTs_%s\n  ThreadNames <- Threads_%s\n  WyFix = %s\n'
+                        '  AllowSpurious = FALSE\nINIT Init_%s\nNEXT Next\nCHECK_DEADLOCK TRUE\nINVARIANTS %s\n'
+                        % (k, k, k, 'TRUE' if fixed else 'FALSE', k, INVARIANTS))
 
 
 # --------------------------------------------------------------------------- random programs
@@ -293,7 +322,6 @@ def well_formed(text):
 
 if __name__ == '__main__':
     if len(sys.argv) > 1 and sys.argv[1] == 'mc':
-        import os
         write_mc(os.path.join(os.path.dirname(os.path.abspath(__file__)), 'MCFuture.tla'))
     elif len(sys.argv) > 2 and sys.argv[1] == 'rand':
         rng = random.Random(int(sys.argv[2]))
